@@ -36,10 +36,11 @@ type DeepX struct {
 }
 
 type SIn struct {
-	A int
-	B string
-	L Level
-	D Deep
+	A  int
+	B  string
+	L  Level
+	D  Deep
+	PD *Deep
 }
 
 func (s SIn) Label() string { note("SIn.Label"); return s.B + "#" + strconv.Itoa(s.A) }
@@ -65,6 +66,7 @@ type Src struct {
 	Name  string
 	Score Grade
 	Flag  bool
+	PGr   *Grade
 }
 
 type Dst struct {
@@ -93,6 +95,9 @@ func ConvE(s *SIn) (*DIn, error) {
 	}
 	return &DIn{A: int64(s.A)}, nil
 }
+
+// Rank takes the text of a grade; its result needs a conversion on the way to Dst.Count.
+func Rank(s string) int32 { note("Rank(" + s + ")"); return int32(len(s)) }
 
 func Up(s string) string { note("Up(" + s + ")"); return "U:" + s }
 
